@@ -790,5 +790,96 @@ theorem lookup_groupOnto_eq_addAll (base : Entries) (cs : List (Str × Val))
   · simp only [e, if_false, valsOf_eq_nil e]
     rfl
 
+
+/-! ### values the decoder produces -/
+
+/-- a string, number or bool -/
+def scalar : Val → Bool
+  | .str _ | .num _ | .bool _ => true
+  | _ => false
+
+theorem cast_scalar (S : Strconv) (c : CastCfg) (s t : Str) : scalar (cast S c s t) = true := by
+  unfold cast
+  split
+  · rfl
+  split
+  · rfl
+  split
+  · rfl
+  simp only
+  split
+  · rename_i v hv
+    split at hv
+    · split at hv
+      · cases hv; rfl
+      · cases h : S.parseUint s <;> simp [h] at hv
+        subst hv; rfl
+    · cases hv
+  · split
+    · rename_i v hv
+      split at hv
+      · split at hv
+        · split at hv
+          · cases hv
+          · cases hv; rfl
+        · cases hv
+      · cases hv
+    · rfl
+    · split
+      · split <;> rfl
+      · rfl
+
+
+theorem scalar_not_list {v : Val} (h : scalar v = true) : v.isList = false := by
+  cases v <;> simp [scalar, Val.isList] at h ⊢
+
+theorem scalar_norm {v : Val} (h : scalar v = true) : v.norm = v := by
+  cases v <;> simp [scalar, Val.norm] at h ⊢
+
+/-- the relation carried through the tree induction: maps with distinct keys holding `≈ᵥ`
+    values under the same keys, or the same scalar -/
+def Rel (a b : Val) : Prop :=
+  (∃ l l', a = .map l ∧ b = .map l' ∧ (keys l).Nodup ∧ (keys l').Nodup ∧ EqN l l')
+  ∨ (scalar a = true ∧ a = b)
+
+theorem Rel.map {l l' : Entries} (h1 : (keys l).Nodup) (h2 : (keys l').Nodup) (h : EqN l l') :
+    Rel (.map l) (.map l') := .inl ⟨l, l', rfl, rfl, h1, h2, h⟩
+
+theorem Rel.scalar {a : Val} (h : scalar a = true) : Rel a a := .inr ⟨h, rfl⟩
+
+theorem Rel.equiv {a b : Val} (h : Rel a b) : a ≈ᵥ b := by
+  rcases h with ⟨l, l', rfl, rfl, h1, h2, h⟩ | ⟨_, rfl⟩
+  · exact EqN.norm_map h1 h2 h
+  · rfl
+
+theorem Rel.not_list_right {a b : Val} (h : Rel a b) : b.isList = false := by
+  rcases h with ⟨l, l', rfl, rfl, _⟩ | ⟨hs, rfl⟩
+  · rfl
+  · exact scalar_not_list hs
+
+theorem Rel.seqDecorate (cfg : DecCfg) (seq : Nat) {a b : Val} (h : Rel a b) :
+    Rel (seqDecorate cfg seq a).1 (seqDecorate cfg seq b).1
+      ∧ (seqDecorate cfg seq a).2 = (seqDecorate cfg seq b).2 := by
+  rcases h with ⟨l, l', rfl, rfl, h1, h2, h⟩ | ⟨hs, rfl⟩
+  · unfold Mxj.seqDecorate
+    cases cfg.seqNum
+    · exact ⟨Rel.map h1 h2 h, rfl⟩
+    · exact ⟨Rel.map (nodup_keys_insert _ _ _ h1) (nodup_keys_insert _ _ _ h2)
+        (EqN.insert h _ rfl), rfl⟩
+  · refine ⟨?_, rfl⟩
+    unfold Mxj.seqDecorate
+    cases cfg.seqNum
+    · exact Rel.scalar hs
+    · cases a <;> simp [Dec.scalar] at hs <;>
+        exact Rel.map (nodup_keys_insert _ _ _ (by simp [keys]))
+          (nodup_keys_insert _ _ _ (by simp [keys])) (EqN.refl _)
+
+theorem seqDecorate_not_list (cfg : DecCfg) (seq : Nat) {v : Val} (h : v.isList = false) :
+    (seqDecorate cfg seq v).1.isList = false := by
+  unfold seqDecorate
+  cases cfg.seqNum
+  · exact h
+  · cases v <;> simp [Val.isList] at h ⊢
+
 end Dec
 end Mxj
